@@ -595,3 +595,137 @@ Proof.
   replace (34%N :: body ++ 34%N :: rest) with ((34%N :: body ++ [34%N]) ++ rest) by (cbn [app]; now rewrite <- app_assoc).
   apply slice_app.
 Qed.
+
+(* ---- names, and chains of members, syntactically ---- *)
+Lemma ascii_decode : forall n s, List.length s <= n -> is_ascii s = true -> utf8_decode_aux n s = Some s.
+Proof.
+  induction n as [|n IH]; intros s L A; destruct s as [|c s]; try reflexivity; cbn [List.length] in L; [lia|].
+  unfold is_ascii in A. cbn [forallb] in A. apply andb_true_iff in A. destruct A as [A1 A2].
+  cbn [utf8_decode_aux utf8_step]. rewrite A1. rewrite (IH s ltac:(lia) A2). reflexivity.
+Qed.
+Lemma ascii_valid s : is_ascii s = true -> utf8_valid s = true.
+Proof. intros A. unfold utf8_valid, utf8_decode. now rewrite (ascii_decode _ s (le_n _) A). Qed.
+
+Definition ident_char (c : N) : bool := mem c ident_chars.
+Definition ident_start (c : N) : bool := is_alpha c || N.eqb c 95.
+Lemma ident_char_ascii c : ident_char c = true -> (c <? 128)%N = true.
+Proof.
+  unfold ident_char, ident_chars. intros H.
+  assert (F : forallb (fun x => (x <? 128)%N) (b "_0123456789ABCDEFGHIJKLMNOPQRSTUVWXYZabcdefghijklmnopqrstuvwxyz") = true) by (vm_compute; reflexivity).
+  rewrite forallb_forall in F. apply F. clear F.
+  induction (b "_0123456789ABCDEFGHIJKLMNOPQRSTUVWXYZabcdefghijklmnopqrstuvwxyz") as [|x l IH]; [discriminate|].
+  cbn [mem] in H. apply orb_true_iff in H. destruct H as [H|H]; [apply N.eqb_eq in H; subst; now left|right; now apply IH].
+Qed.
+Lemma alpha_is_ident c : is_alpha c = true -> ident_char c = true.
+Proof.
+  intros H. unfold is_alpha in H. unfold ident_char, ident_chars.
+  assert (forall x, (65 <=? x)%N && (x <=? 90)%N || (97 <=? x)%N && (x <=? 122)%N = true -> (x < 123)%N) as B.
+  { intros x Hx. apply orb_true_iff in Hx. destruct Hx as [Hx|Hx]; apply andb_true_iff in Hx; destruct Hx as [_ Hx]; apply N.leb_le in Hx; lia. }
+  pose proof (B c H) as Lt.
+  assert (T : forallb (fun x => implb (is_alpha x) (mem x (b "_0123456789ABCDEFGHIJKLMNOPQRSTUVWXYZabcdefghijklmnopqrstuvwxyz"))) (map N.of_nat (seq 0 123)) = true) by (vm_compute; reflexivity).
+  rewrite forallb_forall in T. specialize (T c).
+  assert (I : In c (map N.of_nat (seq 0 123))).
+  { apply in_map_iff. exists (N.to_nat c). split; [apply N2Nat.id|]. apply in_seq. lia. }
+  specialize (T I). unfold is_alpha in T. rewrite H in T. exact T.
+Qed.
+
+(* a name is a letter or underscore followed by letters, digits and underscores; it ends at the
+   first byte that is none of these *)
+Definition name_stop (r : bytes) : Prop := r = [] \/ exists x t, r = x :: t /\ ident_char x = false.
+Theorem rust_name_ident c cs r : ident_start c = true -> Forall (fun x => ident_char x = true) cs -> name_stop r ->
+  rust_name ((c :: cs) ++ r) = Ok (c :: cs) r.
+Proof.
+  intros Hc Hcs Hr. unfold rust_name.
+  assert (A : is_ascii (c :: cs) = true).
+  { unfold is_ascii. apply forallb_forall. intros x [<-|Hx].
+    - unfold ident_start in Hc. apply orb_true_iff in Hc. destruct Hc as [Hc|Hc]; [now apply ident_char_ascii, alpha_is_ident|apply N.eqb_eq in Hc; now subst].
+    - rewrite Forall_forall in Hcs. now apply ident_char_ascii, Hcs. }
+  apply map_res_to_str_ok; [|now apply ascii_valid].
+  assert (R : exists v, pair (alt [tag (b "_"); alpha1]) (opt (is_a ident_chars)) ((c :: cs) ++ r) = Ok v r).
+  {
+    (* the run of identifier characters after the first alternative *)
+    assert (Tail : forall pre post, (c :: cs) = pre ++ post -> Forall (fun x => ident_char x = true) post ->
+              exists o, opt (is_a ident_chars) (post ++ r) = Ok o r).
+    { intros pre post _ Hp. unfold opt, is_a, take_while1. fold ident_char.
+      rewrite (span_app_stop ident_char post r Hr).
+      assert (S0 : span ident_char post = (post, [])).
+      { clear -Hp. induction Hp as [|x l Hx Hl IH]; [reflexivity|]. cbn [span]. rewrite Hx, IH. reflexivity. }
+      rewrite S0. cbn [fst snd app]. destruct post; eexists; reflexivity. }
+    unfold pair, bind, alt. cbn [alt'].
+    destruct (N.eqb c 95) eqn:U.
+    - apply N.eqb_eq in U. subst c. cbn [app]. unfold tag at 1. cbn [b map String.list_ascii_of_string strip_prefix]. change (N_of_ascii "_") with 95%N.
+      rewrite N.eqb_refl. destruct (Tail [95%N] cs eq_refl Hcs) as [o Ho]. unfold pmap. rewrite Ho. eexists. reflexivity.
+    - unfold ident_start in Hc. rewrite U, orb_false_r in Hc. cbn [app]. unfold tag at 1. cbn [b map String.list_ascii_of_string strip_prefix]. change (N_of_ascii "_") with 95%N.
+      rewrite (N.eqb_sym 95 c), U. unfold alpha1, take_while1.
+      destruct (span_snd_suffix is_alpha (c :: cs ++ r)) as [pre [Hpre Hfst]].
+      change (c :: cs ++ r) with ((c :: cs) ++ r) in *.
+      (* the alpha run is a prefix of the name: split the name there *)
+      assert (Sp : exists a1 a2, c :: cs = a1 ++ a2 /\ a1 <> [] /\ span is_alpha ((c :: cs) ++ r) = (a1, a2 ++ r)).
+      { clear Hpre Hfst pre Tail A. revert Hr Hcs Hc. generalize r. clear. intros r Hr Hcs Hc.
+        assert (G : forall l, Forall (fun x => ident_char x = true) l -> exists a1 a2, l = a1 ++ a2 /\ span is_alpha (l ++ r) = (a1, a2 ++ r)).
+        { induction l as [|x l IH]; intros Hl.
+          - exists [], []. split; [reflexivity|]. cbn [app]. destruct Hr as [->|[y [t [-> Hy]]]]; [reflexivity|].
+            cbn [span]. destruct (is_alpha y) eqn:Ay; [|reflexivity]. rewrite (alpha_is_ident y Ay) in Hy. discriminate.
+          - inversion Hl; subst. destruct (IH H2) as [a1 [a2 [E S0]]]. cbn [app span]. destruct (is_alpha x).
+            + exists (x :: a1), a2. split; [now rewrite E|]. now rewrite S0.
+            + exists [], (x :: l). split; reflexivity. }
+        destruct (G cs Hcs) as [a1 [a2 [E S0]]]. exists (c :: a1), a2. split; [now rewrite E|]. split; [discriminate|].
+        cbn [app span]. rewrite Hc. now rewrite S0. }
+      destruct Sp as [a1 [a2 [E [Ne S0]]]]. rewrite S0. destruct a1 as [|y a1]; [congruence|].
+      assert (Ha2 : Forall (fun x => ident_char x = true) a2).
+      { assert (Fall : Forall (fun x => ident_char x = true) (c :: cs)).
+        { constructor; [now apply alpha_is_ident|exact Hcs]. }
+        rewrite E in Fall. apply Forall_app in Fall. tauto. }
+      unfold err1. cbv beta iota. destruct (Tail (y :: a1) a2 E Ha2) as [o Ho]. unfold pmap. rewrite Ho. eexists. reflexivity. }
+  destruct R as [v R]. rewrite (recognize_ok _ _ _ _ R). f_equal. apply slice_app.
+Qed.
+
+Definition is_ident (s : bytes) : Prop := exists c cs, s = c :: cs /\ ident_start c = true /\ Forall (fun x => ident_char x = true) cs.
+Fixpoint dotted (segs : list bytes) : bytes :=
+  match segs with [] => [] | [s] => s | s :: rest => s ++ 46%N :: dotted rest end.
+Lemma ident_ascii s : is_ident s -> is_ascii s = true.
+Proof.
+  intros [c [cs [-> [Hc Hcs]]]]. unfold is_ascii. apply forallb_forall. intros x [<-|Hx].
+  - unfold ident_start in Hc. apply orb_true_iff in Hc. destruct Hc as [Hc|Hc]; [now apply ident_char_ascii, alpha_is_ident|apply N.eqb_eq in Hc; now subst].
+  - rewrite Forall_forall in Hcs. now apply ident_char_ascii, Hcs.
+Qed.
+Lemma dotted_ascii segs : Forall is_ident segs -> is_ascii (dotted segs) = true.
+Proof.
+  induction 1 as [|s rest Hs Hr IH]; [reflexivity|]. destruct rest as [|s2 rest]; [now apply ident_ascii|].
+  cbn [dotted] in *. pose proof (ident_ascii s Hs) as As. unfold is_ascii in *. rewrite forallb_app, As. cbn [forallb andb]. exact IH.
+Qed.
+Lemma prefix_none c t : ident_start c = true -> prefix_alt (c :: t) = Ok [] (c :: t).
+Proof.
+  intros H. unfold prefix_alt, alt. cbn [alt']. unfold tag. cbn [b map String.list_ascii_of_string strip_prefix].
+  change (N_of_ascii "&") with 38%N. change (N_of_ascii "*") with 42%N.
+  assert (N38 : N.eqb 38 c = false /\ N.eqb 42 c = false).
+  { unfold ident_start, is_alpha in H. split; destruct (N.eqb_spec 38 c), (N.eqb_spec 42 c); subst; try reflexivity; discriminate. }
+  destruct N38 as [-> ->]. reflexivity.
+Qed.
+
+(* a chain of members a.b.c taken whole: every segment a name, the follower a byte that neither
+   continues the last name nor starts a postfix form *)
+Theorem member_chain_complete : forall segs r n, segs <> [] -> Forall is_ident segs -> name_stop r -> xstop r ->
+  List.length segs + 2 <= n -> XE n (dotted segs ++ r) r.
+Proof.
+  induction segs as [|s rest IH]; intros r n Ne Hs Nr Xr Hn; [congruence|].
+  inversion Hs as [|? ? Hs1 Hrest]; subst. destruct Hs1 as [c [cs [-> [Hc Hcs]]]].
+  destruct n as [|n]; [cbn in Hn; lia|]. destruct n as [|n]; [cbn in Hn; lia|].
+  assert (St : exists e, postfix_alt (expr_gram (S n)) r = Err e).
+  { destruct n as [|n]; [cbn in Hn; lia|]. exact (postfix_stops n r Xr). }
+  assert (V : utf8_valid (slice (dotted ((c :: cs) :: rest) ++ r) r) = true).
+  { rewrite slice_app. apply ascii_valid, dotted_ascii. exact Hs. }
+  destruct rest as [|s2 rest].
+  - cbn [dotted] in *. eapply XE_mk; [apply prefix_none, Hc|eapply XA_name; now apply rust_name_ident|apply XPs_nil|exact St|exact V].
+  - match goal with |- XE _ ?i _ => assert (E : i = (c :: cs) ++ 46%N :: (dotted (s2 :: rest) ++ r)) by (cbn [dotted]; now rewrite <- app_assoc) end.
+    match type of V with utf8_valid (slice ?i _) = _ => assert (E2 : i = (c :: cs) ++ 46%N :: (dotted (s2 :: rest) ++ r)) by (cbn [dotted]; now rewrite <- app_assoc) end.
+    rewrite E2 in V. rewrite E. eapply XE_mk; [apply prefix_none, Hc| | |exact St|exact V].
+    + eapply XA_name. apply rust_name_ident; [exact Hc|exact Hcs|]. right. exists 46%N, (dotted (s2 :: rest) ++ r). split; reflexivity.
+    + eapply XPs_cons; [apply XP_dot; apply (IH r (S n)); [discriminate|exact Hrest|exact Nr|exact Xr|cbn [List.length] in *; lia]| |apply XPs_nil].
+      cbn [List.length]. assert (L : List.length r <= List.length (dotted (s2 :: rest) ++ r)) by (rewrite app_length; lia). lia.
+Qed.
+Corollary member_chain_taken_whole segs r n : segs <> [] -> Forall is_ident segs -> name_stop r -> xstop r -> List.length segs + 2 <= n ->
+  expr_gram n NExpr (dotted segs ++ r) = Ok (dotted segs) r.
+Proof.
+  intros. rewrite (proj1 expr_complete n _ r (member_chain_complete segs r n H H0 H1 H2 H3)). now rewrite slice_app.
+Qed.
